@@ -616,3 +616,27 @@ func vDeclarationsNoPanic() (int, []string) {
 //@   unclaimed call-*-pre* "token lists of parsed declarations contain no nil token (a data invariant of the parser's output)"
 //@   loop 2 exit[every-declaration-visited] rangeindex == len(declarations)
 //@   call append#9 assert[own-importance] arg1[0].Important == declaration.Important && arg1[0].Name == np.name && arg1[0].Value == np.property && arg1[0].Shortand == np.shortand
+
+// One `<lower> <upper>` pair of the @counter-style `range` descriptor (Counter Styles 3 §3.5): each bound is an
+// integer or `infinite`; `infinite` as the LOWER bound is negative infinity, as the upper bound positive
+// infinity; the pair is valid when lower <= upper (a one-value range `2 2` included) and invalid otherwise.
+//@ func range_
+//@   props C19
+//@   nopanic
+//@   requires forall(i, 0, len(tokens), tokens[i] != nil)
+//@   let inf0 = typeIs(tokens[0], pa.Ident) && tokens[0].(pa.Ident).Value == "infinite"
+//@   let inf1 = typeIs(tokens[1], pa.Ident) && tokens[1].(pa.Ident).Value == "infinite"
+//@   let int0 = typeIs(tokens[0], pa.Number) && tokens[0].(pa.Number).IsInt()
+//@   let int1 = typeIs(tokens[1], pa.Number) && tokens[1].(pa.Number).IsInt()
+//@   ensures[a-pair] len(tokens) != 2 ==> result1 == ErrInvalidValue
+//@   ensures[bounds-are-integers-or-infinite] len(tokens) == 2 && !((inf0 || int0) && (inf1 || int1)) ==> result1 == ErrInvalidValue
+//@   ensures[ordered-pairs-accepted] len(tokens) == 2 && int0 && int1 && tokens[0].(pa.Number).Int() <= tokens[1].(pa.Number).Int() ==> result1 == nil && result0[0] == tokens[0].(pa.Number).Int() && result0[1] == tokens[1].(pa.Number).Int()
+//@   ensures[reversed-pairs-rejected] len(tokens) == 2 && int0 && int1 && tokens[0].(pa.Number).Int() > tokens[1].(pa.Number).Int() ==> result1 == ErrInvalidValue
+//@   ensures[infinite-upper-bound] len(tokens) == 2 && int0 && inf1 && tokens[0].(pa.Number).Int() <= 2147483647 ==> result1 == nil && result0[0] == tokens[0].(pa.Number).Int() && result0[1] == 2147483647
+//@   ensures[infinite-lower-bound-is-minus-infinity] len(tokens) == 2 && inf0 && int1 && tokens[1].(pa.Number).Int() >= -2147483648 ==> result1 == nil && result0[0] == -2147483648 && result0[1] == tokens[1].(pa.Number).Int()
+//@   ensures[all-integers] len(tokens) == 2 && inf0 && inf1 ==> result1 == nil && result0[0] == -2147483648 && result0[1] == 2147483647
+//@   ensures[accepted-pairs-are-ordered] result1 == nil ==> result0[0] <= result0[1]
+//@   loop 1 invariant -1 <= rangeindex && rangeindex < 2 && len(tokens) == 2
+//@   loop 1 invariant rangeindex >= 0 ==> (inf0 || int0) && (inf0 ==> values[0] == -2147483648) && (int0 ==> values[0] == tokens[0].(pa.Number).Int())
+//@   loop 1 invariant rangeindex >= 1 ==> (inf1 || int1) && (inf1 ==> values[1] == 2147483647) && (int1 ==> values[1] == tokens[1].(pa.Number).Int())
+//@   loop 1 decreases 2 - rangeindex
